@@ -18,7 +18,7 @@ func init() {
 	register(&Driver{
 		ID:        "C12",
 		Technique: "exhaustive enumeration of all participant sequences up to length 6 (thorough 7) over three ordering classes x five Order values (extremes included) through the real sorting helper, and of all sequences up to length 3 for post-processors, runners and loaders through real starts under every registry iteration order; oracle on the output permutation and on the observed invocation log",
-		Rule:      "symbols = {PriorityOrdered(o), Ordered(o), unordered : o in {MinInt,-1,0,1,MaxInt}} (11); direct: all sequences of length <=6 (thorough <=7); call sites: all sequences of length <=3 (thorough <=4) as user post-processors / application runners / configuration loaders x all permutations of the registry iteration order; non-trivial = sequence with >=2 participants of one ordered class or of different classes",
+		Rule:      "symbols = {PriorityOrdered(o), Ordered(o), unordered : o in {MinInt,-1,0,1,MaxInt}} (11); direct: all sequences of length <=6 (thorough <=7); call sites: all sequences of length <=3 (thorough <=4) as user post-processors / application runners / configuration loaders x all permutations of the registry iteration order; non-trivial = sequence with >=2 participants of one ordered class or of different classes. Families added in later rounds (look-ups inside Init, retries after an abandoned attempt, user extension points at every Order, several containers, odd names / types / values) are listed per part in this file and described in MANIFEST.json (level_claimed.text) and DESIGN §7",
 		Assumptions: []string{
 			"ties (equal Order within a class, unordered participants) may appear in any relative order",
 			"more than 6 (7) participants directly / 3 (4) through a start are not covered",
